@@ -9,6 +9,8 @@ types or other groups the compiled expression saw before.
 import Kap.Proofs.C04
 import Kap.Proofs.C04Cache
 import Kap.Proofs.C04Trap
+import Kap.Proofs.C04Ref
+import Kap.Gen.C04Sigs
 import Kap.Model.C04Legacy
 import Kap.Gen.C04
 namespace Kap.Props.C04
@@ -125,33 +127,94 @@ theorem result_has_requested_type {F : Type} (ctx : Ctx F) (σ : Scope F) (e : E
 
 /-! ### Agreement with the reference semantics -/
 
-/-- the incremental state of the stateful builtins represents a history of arguments. -/
-def StateRel {F : Type} (ctx : Ctx F) (st : FnState F) (h : Hist F) : Prop :=
-  st.count = wrap h.counts ∧
-  st.spMin = h.spreads.foldl (fun m y => if ctx.ops.lt y m then y else m) ctx.ops.posInf ∧
-  st.spMax = h.spreads.foldl (fun m y => if ctx.ops.gt y m then y else m) ctx.ops.negInf ∧
-  (st.sN, st.sMean, st.sM2) = h.sigmas.foldl (fun (acc : F × F × F) y =>
-      let n := ctx.ops.add acc.1 (ctx.ops.ofInt 1)
-      let delta := ctx.ops.sub y acc.2.1
-      let mean := ctx.ops.add acc.2.1 (ctx.ops.div delta n)
-      (n, mean, ctx.ops.add acc.2.2 (ctx.ops.mul delta (ctx.ops.sub y mean))))
-    (ctx.ops.ofInt 0, ctx.ops.ofInt 0, ctx.ops.ofInt 0)
+/-- the regenerated table has what the agreement proof needs (completeness + canonical entries). -/
+theorem gen_table_ok : TblOK Gen.table :=
+  ⟨table_complete, fun e he => List.all_eq_true.mp table_canonical e he⟩
 
-/-- FULL STATEMENT, stated and NOT proved (listed as stated-unproved, never counted): on every point at
-which the expression is well typed in the reference typing `typeRef`, the evaluator returns exactly the
-outcome of the reference big-step semantics `valRef` (value, or error for a run-time fault) and steps the
-stateful functions exactly as the reference does. What IS proved of it: the operator level (`table_sound`,
-`table_complete`: every operator application computes `refBinop` on exactly the documented type pairs),
-`result_has_requested_type`, `no_trap`, and that the evaluator is a function of expression, point and
-group state only (`cache_transparent`, `history_independent`). What is missing is the induction over
-expressions relating `Type()`/`EvalX` to `typeRef`/`valRef` (unary operators, short circuit, argument
-evaluation, the `StateRel` simulation); on every run the driver checks this statement on the OBSERVED answers
-of the real evaluator instead (`Kap.C04.expect`). -/
-def agrees_with_reference_stmt : Prop :=
-  ∀ (F : Type) (ctx : Ctx F), ctx.tbl = Gen.table →
-    ∀ (σ : Scope F) (e : Expr F) (t : Ty) (st : FnState F) (h : Hist F),
-      StateRel ctx st h → typeRef ctx σ e = some t →
-        (evalN ctx σ t e st).1 = (valRef ctx σ e h).1 ∧ StateRel ctx (evalN ctx σ t e st).2 (valRef ctx σ e h).2
+/-- the signatures of the linked kapacitor declare, for the builtins the model defines itself, the type
+these builtins return (`count` int, `sigma`/`spread` float, `isPresent` bool, `if(bool, T, T)` T), and no
+builtin is declared to return a missing or invalid value. Decided on the regenerated signature table. -/
+theorem gen_sigs_ok : Gen.sigs.all nativeSigOK = true := by decide
+
+/-- **agrees_with_reference** — the headline claim. For the operator table and the builtin signatures as
+they are in the source now, any float arithmetic, any regex matcher and any library oracle that returns
+values of the declared types: on EVERY point at which the expression is well typed in the reference typing
+`typeRef` (documented operator matrix, signatures; expression of any size, no missing-value literal — the
+language has none), the evaluator asked for that type returns exactly the outcome of the big-step reference
+semantics `valRef` — the value, or an error when evaluation faults (zero divisor, rejected library call) —
+and steps the stateful functions exactly as the reference's histories do (`StateRel` is preserved). -/
+theorem agrees_with_reference {F : Type} (ctx : Ctx F) (htbl : ctx.tbl = Gen.table) (hsigs : ctx.sigs = Gen.sigs)
+    (horacle : ∀ fn args v t, ctx.call fn args = some (.ok v) → sigType ctx fn (args.map Value.ty) = some t → v.ty = t)
+    (σ : Scope F) (e : Expr F) (t : Ty) (st : FnState F) (h : Hist F)
+    (hwf : noMissingLit e = true) (hr : StateRel ctx st h) (ht : typeRef ctx σ e = some t) :
+    (evalN ctx σ t e st).1 = (valRef ctx σ e h).1 ∧ StateRel ctx (evalN ctx σ t e st).2 (valRef ctx σ e h).2 := by
+  have hT : TblOK ctx.tbl := htbl ▸ gen_table_ok
+  have hF : FnOK ctx := ⟨fun s hs => List.all_eq_true.mp gen_sigs_ok s (hsigs ▸ hs), horacle⟩
+  exact agree_all ctx σ hT hF e hwf t st h hr ht
+
+/-- the state of a fresh expression instance (`NewExpression`, `CopyReset`) represents the empty history. -/
+theorem fresh_state_is_empty_history {F : Type} (ctx : Ctx F) : StateRel ctx (FnState.init ctx.ops) {} :=
+  stateRel_init ctx
+
+/-- the answers of one group: `Expression.Eval` on each of its points in turn (cache and state threaded). -/
+def runEvals {F : Type} (ctx : Ctx F) (e : Expr F) : List (Scope F) → Cache → FnState F → List (Outcome (Value F))
+  | [], _, _ => []
+  | σ :: rest, c, st =>
+    (runPath ctx σ .eval e c st).1 :: runEvals ctx e rest (runPath ctx σ .eval e c st).2.1 (runPath ctx σ .eval e c st).2.2
+
+/-- the reference answers for the same points: `valRef` with the history threaded. -/
+def refEvals {F : Type} (ctx : Ctx F) (e : Expr F) : List (Scope F) → Hist F → List (Outcome (Value F))
+  | [], _ => []
+  | σ :: rest, h => (valRef ctx σ e h).1 :: refEvals ctx e rest (valRef ctx σ e h).2
+
+/-- **eval_history_is_reference.** Through the real entry path (`Expression.Eval`: `Type`, `EvalX` by type,
+with the specialisation cache): for a compiled expression in ANY cache state the evaluator can be in
+(`Inv`: after any earlier evaluations for any groups, see `reachable_cache_inv`) and a group whose function
+state represents its history, the answers to ANY sequence of points that are well typed with a value type are
+exactly the reference answers for that sequence — values, run-time faults as errors, stateful functions
+over the group's own history. No bound on the sequence or the expression. -/
+theorem eval_history_is_reference {F : Type} (ctx : Ctx F) (htbl : ctx.tbl = Gen.table) (hsigs : ctx.sigs = Gen.sigs)
+    (horacle : ∀ fn args v t, ctx.call fn args = some (.ok v) → sigType ctx fn (args.map Value.ty) = some t → v.ty = t)
+    (e : Expr F) (hwf : noMissingLit e = true) (pts : List (Scope F)) :
+    (∀ σ ∈ pts, ∃ t, typeRef ctx σ e = some t ∧ isValTy t = true) →
+    ∀ (c : Cache) (st : FnState F) (h : Hist F), Inv ctx e c → StateRel ctx st h →
+      runEvals ctx e pts c st = refEvals ctx e pts h := by
+  have hT : TblOK ctx.tbl := htbl ▸ gen_table_ok
+  have hF : FnOK ctx := ⟨fun s hs => List.all_eq_true.mp gen_sigs_ok s (hsigs ▸ hs), horacle⟩
+  induction pts with
+  | nil => intro _ c st h _ _; rfl
+  | cons σ rest ih =>
+    intro hall c st h hinv hr
+    obtain ⟨t, ht, hv⟩ := hall σ (List.mem_cons_self ..)
+    obtain ⟨p1, p2, p3⟩ := runPath_eq ctx σ .eval e c st hinv
+    obtain ⟨q1, q2⟩ := runPathN_agree ctx σ hT hF e .eval t st h hwf hr ht (Or.inl ⟨rfl, hv⟩)
+    simp only [runEvals, refEvals]
+    rw [p1, q1]
+    congr 1
+    exact ih (fun σ' hm => hall σ' (List.mem_cons_of_mem _ hm)) _ _ _ p3 (p2 ▸ q2)
+
+/-- the predicate path (`EvalPredicate` after `fillScope`: `Type`, then `EvalBool`) on a boolean point, in any
+reachable cache state. -/
+theorem predicate_is_reference {F : Type} (ctx : Ctx F) (htbl : ctx.tbl = Gen.table) (hsigs : ctx.sigs = Gen.sigs)
+    (horacle : ∀ fn args v t, ctx.call fn args = some (.ok v) → sigType ctx fn (args.map Value.ty) = some t → v.ty = t)
+    (e : Expr F) (hwf : noMissingLit e = true) (pre : List (Path × Scope F × FnState F))
+    (σ : Scope F) (st : FnState F) (h : Hist F) (hr : StateRel ctx st h) (ht : typeRef ctx σ e = some .bool) :
+    (runPath ctx σ .pred e (reach ctx e pre) st).1 = (valRef ctx σ e h).1 ∧
+    StateRel ctx (runPath ctx σ .pred e (reach ctx e pre) st).2.2 (valRef ctx σ e h).2 := by
+  have hT : TblOK ctx.tbl := htbl ▸ gen_table_ok
+  have hF : FnOK ctx := ⟨fun s hs => List.all_eq_true.mp gen_sigs_ok s (hsigs ▸ hs), horacle⟩
+  obtain ⟨p1, p2, _⟩ := runPath_eq ctx σ .pred e _ st (reach_inv ctx e pre)
+  obtain ⟨q1, q2⟩ := runPathN_agree ctx σ hT hF e .pred .bool st h hwf hr ht (Or.inr (Or.inl ⟨rfl, rfl⟩))
+  exact ⟨p1.trans q1, p2 ▸ q2⟩
+
+/-- non-vacuity: `count() * "a" > 15` is well typed for an integer and for a duration-free scope, the fresh state
+represents the empty history, and the reference counts across the two points (10·1 > 15 is false, 10·2 > 15 true). -/
+example :
+    let ctx : Ctx Int := { ops := Legacy.toyOps, tbl := Gen.table, sigs := Gen.sigs, reMatch := fun _ _ => none, call := fun _ _ => none }
+    let e : Expr Int := .bin .gt (.bin .mult (.call0 "count") (.ref "a")) (.lit (.int 15))
+    noMissingLit e = true ∧ typeRef ctx [("a", .int 10)] e = some .bool ∧
+    refEvals ctx e [[("a", .int 10)], [("a", .int 10)]] {} = [.ok (.bool false), .ok (.bool true)] := by
+  decide
 
 /-! ### Counterexamples: the evaluator of snapshot ef0888e (model `Kap.C04.Legacy`) is NOT transparent -/
 
